@@ -128,3 +128,41 @@ class FailOn:
     if x in self.bad:
       raise self.exc(f'failOn({x})')
     return self.then(x)
+
+
+# ------------------------------------------------------------------ distributed pipelines (picklable by reference)
+
+
+def define_pipeline(n, shard_index=0, num_shards=1, agg='collect', fail_on=()):
+  """Source 0..n-1 sharded (shard_index, num_shards) -> +100 -> aggregate."""
+  from ml_metrics._src.aggregates import rolling_stats
+  from ml_metrics._src.chainables import io, transform
+  ds = io.SequenceDataSource(list(range(n))).shard(shard_index, num_shards)
+  p = transform.TreeTransform.new(name='p').data_source(ds)
+  if fail_on:
+    p = p.apply(fn=FailOn(fail_on, exc=RuntimeError, then=add100))
+  else:
+    p = p.apply(fn=add100)
+  if agg == 'collect':
+    return p.aggregate(fn=CollectInPlace())
+  if agg == 'meanvar':
+    return p.apply(fn=_as_arr).aggregate(fn=rolling_stats.MeanAndVariance().as_agg_fn())
+  return p
+
+
+def _as_arr(x):
+  import numpy as np
+  return np.array([float(x)])
+
+
+def stage_a(n):
+  from ml_metrics._src.chainables import io, transform
+  return transform.TreeTransform.new(name='a').data_source(io.SequenceDataSource(list(range(n)))).apply(fn=add100)
+
+
+def two_stage_pipeline(n, with_source=True):
+  """named stage 'a' (source + add100) chained with named stage 'b' (inc + aggregate)."""
+  from ml_metrics._src.chainables import transform
+  a = stage_a(n) if with_source else transform.TreeTransform.new(name='a').apply(fn=add100)
+  b = transform.TreeTransform.new(name='b').apply(fn=inc).aggregate(fn=CollectInPlace())
+  return a.chain(b)
